@@ -21,7 +21,7 @@ def add(prop, level, scenarios, real, stub=None, rule=None, assumptions=None):
 
 
 add("C03", "exploration",
-    [{"name": "transport-channel", "quick_s": 40, "thorough_s": 900}],
+    [{"name": "transport-channel", "quick_s": 40, "thorough_s": 900}, {"name": "write-cut-short", "quick_s": 8, "thorough_s": 200}],
     real=["transport (Client, Server, Handle, SessionState, SlidingWindow, PQ handshakes)", "kravatte SANSE", "cyclist", "keys", "certs", "common.DeadlineChan"])
 
 TEXT = {}
@@ -198,12 +198,12 @@ text("C07",
 # ---------------------------------------------------------------------------------------------------------------
 # what the scenarios gained during the seeded-change waves (DESIGN.md section 11); appended to the texts above
 ADDED = {
-    "C01": "in half of the impostor-client runs the server is built by the REAL hopserver.NewHopServer, so the verification policy is what the constructor derives from the configuration (CA certificates, enable/disable switches); impostors also tamper with the proof fields of their own final handshake messages (left out, shortened, zeroed, inverted, halves swapped, two bytes under one mask), present the expected label under another name type, use keys that were listed and removed again, and make preparatory attempts (own root in the intermediate slot, ...) against the server's long-lived verifier before the real attempt",
+    "C01": "in half of the impostor-client runs the server is built by the REAL hopserver.NewHopServer, so the verification policy is what the constructor derives from the configuration (CA certificates, enable/disable switches); impostors also tamper with the proof fields of their own final handshake messages (left out, shortened, zeroed, inverted, halves swapped, two bytes under one mask), present the expected label under another name type, use keys that were listed and removed again, and make preparatory attempts (own root in the intermediate slot, ...) against the server's long-lived verifier before the real attempt; client pinning policy (skip verification + pinned key); further goroutines that ask for the handshake's outcome at any time while the goroutine running it may be held inside a socket deadline call",
     "C02": "two complete sweeps in the quick tier: per offset the masks single-bit, 0x80 and two seeded ones, every neighbouring byte pair under one mask, every truncation length alone and again right behind a full copy of the datagram from another address, 28 replacements",
-    "C03": "type-byte substitution on genuine packets, cross-injection of genuine packets between sessions and directions, late network duplicates of the handshake datagrams with the session outliving the server's handshake timeout",
+    "C03": "type-byte substitution on genuine packets, cross-injection of genuine packets between sessions and directions, late network duplicates of the handshake datagrams with the session outliving the server's handshake timeout; scenario write-cut-short: a multi-packet Write cut short by a socket error, a concurrent local Close or a peer Close on a loss-free network, the reported count judged against the payload bytes the socket transmitted during the call and against what the peer read",
     "C04": "un-nested validity windows and forged intermediates naming a trusted root (signed with real keys through an overlay hook on the internal issuing routine), explicit verification times incl. past instants, names built through the public constructors, long-lived stores shared by many queries, stores loaded from PEM bundles, every question asked again on the same store",
     "C05": "file edits between logins (same-size key replacement with preserved / same-second / later modification time; the simulated file system answers Stat), embedded key texts, run-time toggling of EnableAuthgrants, a slow file system (read and close take simulated time) with dense concurrent logins",
-    "C06": "in a third of the runs the approval hook runs inside a real transport handshake with a real transport server standing for the target (VerifyConfig.AddVerifyCallback under store+name / store / InsecureSkipVerify); denial reasons that are not ASCII (<= 255 characters, > 255 bytes)",
+    "C06": "pipelined delegate requests (several intents in flight on one connection), a scripted target answering each request 1-65 s late, stream pipes with read deadlines on the simulated clock; in a third of the runs the approval hook runs inside a real transport handshake with a real transport server standing for the target (VerifyConfig.AddVerifyCallback under store+name / store / InsecureSkipVerify); denial reasons that are not ASCII (<= 255 characters, > 255 bytes)",
     "C07": "forbidden tubes opened between the two tubes of an exec pair, commands sent seconds to hours after their tubes were opened, the same exec request twice at the same moment, a slow user lookup, overlapping logins with one delegate key under yields; the started command (text, shell flag, time) is taken from the server's own log entry; oracle on the transport layer's trusted-key set after the last grant of a key was consumed",
     "C08": "in a sixth of the runs the muxers run on a real transport session; sequence space of fresh tubes moved close to and across the 32-bit frame-number wrap; schedule perturbation in the tube code and a socket that holds writers up (bounded in time like the other faults); reassembly core with duplicate floods parked behind a gap",
     "C09": "yields in the muxer, messages near and over the size limits (the simulated endpoints enforce the limits of what they stand for), a muxer that stops by itself is a violation, real transport under the muxers in an eighth of the runs",
@@ -212,7 +212,7 @@ ADDED = {
     "C14": "send counters moved close to and across 2^32, 2^31, 2^48, 2^63 (the state a long-lived session reaches by itself); empty messages",
     "C15": "truncated copies and port-only / host-only moves, receive queues of 1-4 packets with a slow application, several writers per connection with blocking socket writes",
     "C16": "large writes, real transport under the muxers in an eighth of the runs, at closure the bytes a tube holds for its reader must all be returned",
-    "C17": "short-buffer reads with a byte-level connection model, long pauses (operations meeting a connection whose handshake failed), handshakes bounded by deadline only or by both, a server that falls silent after its first answer, socket Close reporting an error, harness Close calls bounded and judged",
+    "C17": "a timeout returned by a queue operation must be justified by a deadline that was in force during the call and had been reached on the simulated clock (deadlines set and taken back before they are reached); short-buffer reads with a byte-level connection model, long pauses (operations meeting a connection whose handshake failed), handshakes bounded by deadline only or by both, a server that falls silent after its first answer, socket Close reporting an error, harness Close calls bounded and judged",
     "C19": "multi-host servers built by the real hopserver.NewHopServer, hidden mode configured with names that match no host block, IPv6 client addresses, acknowledgements from the same address while its handshake is pending (altered / zero / foreign-key cookie, random bytes), acknowledgement under a KEM key differing from the cookie's in a few bytes",
 }
 for _p, _t in ADDED.items():
